@@ -1851,8 +1851,21 @@ impl OperatorValidator {
             for branch in recursive.branches.iter() {
                 if let Recursion::LeftRight(regex @ Regex::Concat(concat), left_index, ..) = branch
                 {
-                    let mut ops = concat.operands(cst);
-                    let operand = ops.nth(left_index + 1).unwrap();
+                    // the operator is the first element behind the left operand that check_recursive
+                    // does not look through (predicates, renames, elisions and actions are skipped)
+                    let operand = concat
+                        .operands(cst)
+                        .skip(left_index + 1)
+                        .find(|op| {
+                            !matches!(
+                                op,
+                                Regex::Predicate(_)
+                                    | Regex::NodeRename(_)
+                                    | Regex::NodeElision(_)
+                                    | Regex::Action(_)
+                            )
+                        })
+                        .unwrap();
                     let mut left_assoc = false;
                     let mut right_assoc = false;
                     for sym in sema.first_sets[&operand.syntax()].iter() {
